@@ -3,7 +3,7 @@ import random
 from vlib import *
 import streams
 
-THEOREMS = []
+THEOREMS = ["header_step_shift", "filler_prefix", "unified_section_stops"]
 
 
 def hunks_of(line):
